@@ -162,3 +162,20 @@ Theorem c16_no_will_only_by_takeover : forall e w,
   snd (Stack.Model.epilogue e w) = false ->
   w = Stack.Model.WaitMsg Stack.Model.Cancel \/ w = Stack.Model.WaitClosed.
 Proof. exact Stack.Proofs.c16_no_will_only_by_takeover. Qed.
+
+(** which client id the PublishWill event carries: the id the will was REGISTERED under — the id the
+    broker generated for a client that connected with an empty client id, the client's own otherwise *)
+Theorem c16_will_event_id : forall connect_id generated,
+  Stack.Model.will_event_id (Stack.Model.remote_ids connect_id generated) =
+  Stack.Model.registered_id connect_id (Stack.Model.remote_ids connect_id generated).
+Proof. exact Stack.Proofs.c16_will_event_id. Qed.
+
+Theorem c16_will_event_id_assigned : forall generated,
+  Stack.Model.id_assigned (Stack.Model.remote_ids [] generated) = Some generated /\
+  Stack.Model.will_event_id (Stack.Model.remote_ids [] generated) = generated.
+Proof. exact Stack.Proofs.c16_will_event_id_assigned. Qed.
+
+Theorem c16_will_event_id_named : forall connect_id generated, connect_id <> [] ->
+  Stack.Model.id_assigned (Stack.Model.remote_ids connect_id generated) = None /\
+  Stack.Model.will_event_id (Stack.Model.remote_ids connect_id generated) = connect_id.
+Proof. exact Stack.Proofs.c16_will_event_id_named. Qed.
